@@ -1586,7 +1586,7 @@ int __wrap_close(int fd)
 static int is_array_io(const char* rel)
 {
 	/* data disks "d*", parity "p*": the calls counted by io_count */
-	return rel && (rel[0] == 'd' || rel[0] == 'p') && rel[1] >= '0' && rel[1] <= '9';
+	return rel && (rel[0] == 'd' || rel[0] == 'p' || rel[0] == 'q') && rel[1] >= '0' && rel[1] <= '9';
 }
 
 static void io_tick(const char* rel)
